@@ -44,6 +44,8 @@ Failed ==
     F("C02_Reparse", (Consistent /\ Plain /\ T.cp.st = "done") =>
             (T.cu.st = "done" /\ T.cu.endc = Len(T.cp.out) /\ T.cu.result.vals = V)) \cup
     F("C02_AssertConsistency", (Consistent /\ Plain) => T.ac) \cup
+    \* with positioning: whenever a consistent assignment packs and the output parses, it parses to that assignment
+    F("C02_PosReparse", (Consistent /\ T.cp.st = "done" /\ T.cu.st = "done") => T.cu.result.vals = V) \cup
     \* C07: bit fields are reduced modulo 2^w into their own slice, whatever the values
     F("C07_Isolated", (Plain /\ BitsOnlyIllTyped /\ (\A i \in 1..Len(V) : V[i].v.t = "int")) =>
             (T.cp.st = "done" /\ T.cp.out = Layout(T.prog, T.root, V))) \cup
